@@ -217,6 +217,12 @@ pub fn solve<F: Function>(
         }
     }
 
+    // With no free parameters there is nothing to solve for (and no gradient
+    // samples to read results from)
+    if cur.is_empty() {
+        return Ok(cur);
+    }
+
     let mut solver = Solver::new(eqs, vars);
     #[cfg(fidget_verif)]
     for (v, i) in &solver.grad_index {
